@@ -515,6 +515,11 @@ func (b *Buffer) cleanup() {
 			go func() {
 				defer timer.Stop() // just in case, ensure the timer gets stopped
 				defer func() {
+					// lock the buffer first, so that the re-broadcast cannot land between the cleanup goroutine
+					// evaluating its wait predicate and parking on the cond (which would lose the wake-up)
+					b.mutex.Lock()
+					defer b.mutex.Unlock()
+
 					// lock on the mutex, so that the timer removal and broadcast checking / performing is synced
 					mutex.Lock()
 					defer mutex.Unlock()
